@@ -86,7 +86,9 @@ func pick[T any](sel int, xs ...T) T { return xs[((sel%len(xs))+len(xs))%len(xs)
 func parsePacketErr(b []byte) error { _, _, _, err := wire.ParsePacket(b); return err }
 
 // above returns limit+1+delta clipped to the varint range, below returns limit-delta floored at lo.
-func above(limit, delta uint64) uint64 { return min(refwire.MaxVarint, limit+1+min(delta, refwire.MaxVarint-limit-1)) }
+func above(limit, delta uint64) uint64 {
+	return min(refwire.MaxVarint, limit+1+min(delta, refwire.MaxVarint-limit-1))
+}
 
 var rejectItems = []rejectItem{
 	{name: "frame-max-streams", rfc: "RFC 9000 19.11: MAX_STREAMS above 2^60 -> FRAME_ENCODING_ERROR",
